@@ -16,6 +16,8 @@ MAKERS = {
     "make-counter": "(define (make-counter) (define n 0) (lambda () (set! n (+ n 1)) n))",
     # parameter captured and assigned
     "make-acc": "(define (make-acc total) (lambda (d) (set! total (+ total d)) total))",
+    # one frame reads a variable, has ANOTHER closure assign it, and reads it again (twice)
+    "make-acc2": "(define (make-acc2 start) (define total start) (define (add! k) (set! total (+ total k)) total) (lambda (k) (list total (add! k) total (add! k) total)))",
     # two closures sharing one binding
     "make-cell": "(define (make-cell init) (define c init) (list (lambda () c) (lambda (x) (set! c x) c)))",
     # binding introduced by a lambda application, shared by getter and setter, plus a private counter per call
@@ -98,6 +100,13 @@ class Hist:
         v1 = self.name("v"); F.append([S("define"), S(v1), [S("vector"), 1, 2, 3]]); self.vecs.append(v1)
         g = self.name("g"); F.append([S("define"), S(g), 0]); self.globs.append(g)
         F.append(parse("(define (set-%s! x) (set! %s x))" % (g, g)))
+        # a procedure whose single frame reads the global, lets another procedure assign it and reads it again
+        F.append(parse("(define (rd-%s k) (list %s (set-%s! k) %s (set-%s! (+ k 1)) %s))" % (g, g, g, g, g, g)))
+        self.rdg = g
+        if r.random() < 0.5:
+            # globals named like the variables the generators define internally: an internal definition is local to its body, the globals keep their values
+            for nm, val in (("n", 5000), ("c", 6000), ("total", 7000)):
+                F.append([S("define"), S(nm), val]); self.globs.append(nm)
         # a procedure whose parameter is named like the global and that ends in a tail call of the setter: the setter still assigns the global
         F.append(parse("(define (via-%s! %s) (set-%s! (+ %s 1000)))" % (g, g, g, g)))
         F.append(parse("(define (via2-%s! x) (define %s 7) (set-%s! (+ x %s)))" % (g, g, g, g)))
@@ -178,7 +187,7 @@ class Hist:
                 name, kind = r.choice(self.counters)
                 if kind == "make-counter":
                     F.append([S(name)])
-                elif kind == "make-acc":
+                elif kind in ("make-acc", "make-acc2"):
                     F.append([S(name), r.randint(1, 5)])
                 elif kind == "make-bag":
                     F.append([S(name), self.uniq()])
@@ -230,8 +239,11 @@ class Hist:
                     F.append([S("poke-%s!" % self.vecs[0]), idx, val if isinstance(val, int) else self.uniq()])
             elif c < 0.70:
                 g = r.choice(self.globs)
-                F.append(r.choice([[S("set!"), S(g), self.uniq()], [S("set-%s!" % g), self.uniq()], [S("define"), S(g), self.uniq()], [S("via-%s!" % g), self.uniq()],
-                                   [S("via2-%s!" % g), self.uniq()], [S("begin"), [S("via-%s!" % g), self.uniq()], S(g)]]))
+                if g != self.rdg:
+                    F.append(r.choice([[S("set!"), S(g), self.uniq()], [S("define"), S(g), self.uniq()]]))
+                else:
+                    F.append(r.choice([[S("set!"), S(g), self.uniq()], [S("set-%s!" % g), self.uniq()], [S("define"), S(g), self.uniq()], [S("via-%s!" % g), self.uniq()],
+                                       [S("via2-%s!" % g), self.uniq()], [S("begin"), [S("via-%s!" % g), self.uniq()], S(g)], [S("rd-%s" % g), self.uniq()], [S("rd-%s" % g), self.uniq()]]))
             elif c < 0.76:
                 tgt = S(r.choice(self.lits)) if r.random() < 0.5 else r.choice(self.nested)
                 F.append([S("vector-set!"), tgt, 0, self.uniq()])        # literal vectors reject mutation, also nested ones
